@@ -402,7 +402,13 @@ func (s *Solver) Script(extra *Term) string {
 		r = s.ref(extra)
 	}
 	var sb strings.Builder
-	sb.WriteString(s.session.String())
+	sb.WriteString("(set-logic QF_BV)\n")
+	for _, line := range strings.Split(s.session.String(), "\n") {
+		if line == "" || strings.HasPrefix(line, "(set-option") {
+			continue
+		}
+		sb.WriteString(line + "\n")
+	}
 	if r != "" {
 		sb.WriteString("(assert " + r + ")\n")
 	}
